@@ -4,29 +4,31 @@
   source shape is not recognised is `none` and nothing is claimed about it (the
   behaviour-level tie through Bio/Generated/Tables.lean and the correspondence
   run remains); a fact that IS extracted must agree with the model and with the
-  observed behaviour.  Re-checked by `decide` on every run.
+  observed behaviour.  `holdsIfFound o p` is `true` for `none` and `p x` for
+  `some x`; every theorem is closed by `decide` whichever it is.
 -/
+import Bio.Lemmas.SrcFacts
 import Bio.Lemmas.Sequtil
 import Bio.Generated.Src
 import Bio.Generated.Tables
 namespace Bio.SrcFacts
 open Bio.Generated
 
+def nodupKeys (t : List ((UInt8 × UInt8 × UInt8) × UInt8)) : Bool :=
+  let ks := t.map fun e => e.1.1.toNat * 65536 + e.1.2.1.toNat * 256 + e.1.2.2.toNat
+  ks.all fun k => (ks.filter (· == k)).length == 1
+
 def codonSourceOK (t : List ((UInt8 × UInt8 × UInt8) × UInt8)) : Bool :=
   t.length == 64 &&
   t.all (fun e => Bio.Sequtil.stdCodon e.1.1 e.1.2.1 e.1.2.2 == some e.2) &&
-  decide (t.map (·.1)).Nodup &&
+  nodupKeys t &&
   t.all (fun e => Bio.Sequtil.codon Generated.codonTable e.1.1 e.1.2.1 e.1.2.2 == some e.2)
 
 /-- The `codonToAmino` map literal in the source is the standard genetic code on the 64
 upper-case codons (each key once), and agrees with the table observed on the running code. -/
-theorem codon_source_table : ∀ t, Src.codonToAmino = some t → codonSourceOK t = true := by
-  intro t ht
-  simp only [Src.codonToAmino, Option.some.injEq] at ht
-  subst ht
-  decide +kernel
+theorem codon_source_table : holdsIfFound Src.codonToAmino codonSourceOK = true := by decide +kernel
 
 /-- The `AminoAcids` constant in the source is the one the running code exports. -/
-theorem amino_acids_const : ∀ a, Src.aminoAcids = some a → a = Generated.aminoAcids := by decide
+theorem amino_acids_const : holdsIfFound Src.aminoAcids (· == Generated.aminoAcids) = true := by decide
 
 end Bio.SrcFacts
